@@ -163,10 +163,11 @@ func factsSender() {
 	we, re, ce, cse := events(w), events(rf), events(cl), events(cs)
 
 	// --- the three call chains into obfuscateAndSend
-	boolFact(g, "lockWrite", callsUnderLock(we, reWLock, reWUnlock, send), "Stream.Write: every obfuscateAndSend call is under writingM")
+	// Write is modelled as ONE critical section (closed test + all frames): the whole body must be locked
+	boolFact(g, "lockWrite", wholeBodyLocked(we, reWLock, reWUnlock) && callsUnderLock(we, reWLock, reWUnlock, send), "Stream.Write: Lock; defer Unlock open the body (closed test and every obfuscateAndSend call in one critical section)")
 	boolFact(g, "lockReadFrom", callsUnderLock(re, reWLock, reWUnlock, send), "Stream.ReadFrom: every obfuscateAndSend call is under writingM")
 	// Close: the active closeStream call is under writingM, and closeStream sends only in its `if active` branch
-	closeLocked := callsUnderLock(ce, reWLock, reWUnlock, `\.closeStream\(`)
+	closeLocked := wholeBodyLocked(ce, reWLock, reWUnlock) && callsUnderLock(ce, reWLock, reWUnlock, `\.closeStream\(`)
 	iIf := idx(cse, 0, "if", `^active$`)
 	sendOnlyIfActive := false
 	if iIf >= 0 {
